@@ -47,7 +47,9 @@ C15Cases == {q \in UNION {[1..k -> EvalClass \ {"malformed-annotation"}] : k \in
 Active == {"absent", "true", "false"}
 Comment == {"none", "other", "fltr", "fltr-nospace", "fltr-bare", "fltr-bad", "fltr-empty", "prefix-only-similar",
             "fltr-doublestar", "fltr-slashes", "fltr-unterminated"}       \* other decorations of the same annotation
-Body == {"reject", "terms+reject", "accept", "empty"}
+Body == {"reject", "terms+reject", "accept", "empty",
+         (* other content that is deactivated is other content all the same *)
+         "reject+inactive-term", "inactive-term+reject"}
 AttrOrder == {"comment-first", "active-first"}
 Shapes == {[active |-> a, comment |-> c, body |-> b, order |-> o, dupxmlns |-> d, extra |-> x] :
              a \in Active, c \in Comment, b \in Body, o \in AttrOrder, d \in BOOLEAN, x \in BOOLEAN}
